@@ -1,3 +1,53 @@
+(** C19 — resampling and trimming re-index the trace consistently.
+    Statements only; proofs in proofs/TraceProofs.v.  Navigation, @, scans and virtual
+    signals on the resampled trace are the same operators working through [tr_index],
+    [tr_max], [tr_ts] and [access_data] (theorems of C02/C03/C04 are parametric in the trace). *)
 From WalModel Require Import Eval.
-Theorem tmp : True. Proof. exact I. Qed.
-Print Assumptions tmp.
+From WalModel.proofs Require Import TraceProofs.
+Local Open Scope Z_scope.
+
+(** one time index per distinct selected sample, in list order: INDEX 0, MAX-INDEX = count - 1,
+    TS table and value lookup built from the same de-duplicated list, cached virtual-signal
+    values dropped; everything else (original samples and timestamps) untouched *)
+Theorem resample_spec : forall t L t',
+  trace_sample t L = Some t' ->
+  let D := dedup_Z L [] in
+  tr_index t' = 0 /\ tr_max t' = zlen D - 1 /\ tr_lookup t' = Some D /\
+  map_opt (znth (tr_all_ts t)) D = Some (tr_ts t') /\
+  tr_all_ts t' = tr_all_ts t /\ tr_data t' = tr_data t /\ tr_tid t' = tr_tid t /\
+  tr_raw t' = tr_raw t /\ tr_scopes t' = tr_scopes t /\ tr_widths t' = tr_widths t /\
+  tr_virt t' = clear_caches (tr_virt t) /\
+  NoDup D /\ (forall x, In x D <-> In x L).
+Proof. exact trace_sample_spec. Qed.
+Print Assumptions resample_spec.
+
+(** at new index j every signal reports what the original trace reports at the j-th selected sample *)
+Theorem resampled_value : forall t L t' name j,
+  trace_sample t L = Some t' -> L <> [] ->
+  access_data t' name j =
+  match alookup name (tr_data t) with
+  | None => None
+  | Some col => match znth (dedup_Z L []) j with Some i => znth col i | None => None end
+  end.
+Proof. exact sampled_value. Qed.
+Print Assumptions resampled_value.
+
+(** indices given to a later sample-at refer to the original, unsampled trace *)
+Theorem later_resample_uses_original : forall t L t' L2,
+  trace_sample t L = Some t' -> trace_sample t' L2 = trace_sample t L2.
+Proof. exact resample_refers_to_original. Qed.
+Print Assumptions later_resample_uses_original.
+
+(** trim-trace only lowers MAX-INDEX to min(m, MAX-INDEX); every value stays *)
+Theorem trim_spec : forall t m,
+  tr_max (trace_trim t m) = Z.min m (tr_max t) /\ tr_index (trace_trim t m) = tr_index t /\
+  tr_ts (trace_trim t m) = tr_ts t /\ tr_lookup (trace_trim t m) = tr_lookup t /\
+  tr_data (trace_trim t m) = tr_data t /\ tr_virt (trace_trim t m) = tr_virt t /\
+  (forall name i, access_data (trace_trim t m) name i = access_data t name i).
+Proof. exact trace_trim_spec. Qed.
+Print Assumptions trim_spec.
+
+Definition ex_t : trace := mkTrace "t" "f" 2 3 [0;5;7;9] [0;5;7;9] None ["a"] [("a", ["0";"1";"10";"11"])] [] [] [].
+Example ex_resample : exists t', trace_sample ex_t [2;0;2;3] = Some t' /\ tr_ts t' = [7;0;9] /\ tr_max t' = 2 /\
+  access_data t' "a" 0 = Some "10" /\ access_data t' "a" 2 = Some "11".
+Proof. eexists. split; [reflexivity|]. repeat split. Qed.
